@@ -179,6 +179,12 @@ struct World
   std::unique_ptr<std::stringbuf> sinkbuf[6];
   std::unique_ptr<std::ostream> sink[6];
   std::unique_ptr<fcppt::log::context> context;
+  // a second context that belongs to ONE fiber alone (its set/get calls with c=1 go there): two
+  // contexts share nothing, so whatever one fiber does on its private context must neither disturb
+  // the shared one nor race with it; judged against its own sequential model on the spot
+  std::unique_ptr<fcppt::log::context> private_context;
+  int private_owner = -1;
+  Model private_model{NONE};
   FiberState fs[MAX_FIBERS + 1]; // [MAX_FIBERS] = prelude (main context)
 
   // one operation of one fiber (runs inside the fiber, or on main for the prelude)
@@ -192,7 +198,8 @@ struct World
       if (fa.compare(0, 6, "alloc:") == 0)
         fault_k = std::strtol(fa.c_str() + 6, nullptr, 10);
     }
-    if (fault_k <= 0 || fiber >= MAX_FIBERS)
+    // (calls on the private context run without injected failures: it has no taint bookkeeping)
+    if (fault_k <= 0 || fiber >= MAX_FIBERS || op.get("c") != 0)
     {
       exec_op(f, fiber, k);
       return;
@@ -219,7 +226,27 @@ struct World
     sim::Op const &op = f.ops[k];
     OpInfo &info = f.info[k];
     std::string const &n = op.name;
-    if (n == "set")
+    if ((n == "set" || n == "get") && op.get("c") != 0 && private_context && static_cast<int>(fiber) == private_owner)
+    {
+      std::vector<unsigned> const path = path_of(static_cast<unsigned>(op.getu("loc")));
+      fcppt::log::location const loc = make_location(path);
+      (void)sim::sched::record(fiber, k, false, 0);
+      if (n == "set")
+      {
+        int const v = static_cast<int>(op.getu("lvl") % 7);
+        private_context->set(loc, to_level(v));
+        private_model.set(path, v);
+      }
+      else
+      {
+        int const got = from_level(private_context->get(loc));
+        if (got != private_model.get(path))
+          sim::violate("private-context", "a context used by one thread only reports " + std::string(level_name(got)) + " for " + path_str(path) + ", its own history gives " + level_name(private_model.get(path)) + " (another context's calls leaked into it)");
+      }
+      (void)sim::sched::record(fiber, k, true, 0);
+      info.kind = Kind::none; // not part of the shared context's history
+    }
+    else if (n == "set")
     {
       info.kind = Kind::set;
       info.path = path_of(static_cast<unsigned>(op.getu("loc")));
@@ -323,6 +350,7 @@ struct World
   void run(sim::Plan const &plan)
   {
     unsigned const nf = static_cast<unsigned>(std::min<std::uint64_t>(MAX_FIBERS, std::max<std::uint64_t>(1, plan.cfg.getu("fibers", 2))));
+    name_variant() = static_cast<unsigned>(plan.cfg.getu("nv") % 6);
     int const root = static_cast<int>(plan.cfg.getu("root") % 7);
     for (int l = 0; l < 6; ++l)
     {
@@ -334,6 +362,18 @@ struct World
         fcppt::enum_::array_init<fcppt::log::level_stream_array>([this](fcppt::log::level const l) {
           return fcppt::log::level_stream(*sink[static_cast<unsigned>(l)], fcppt::log::format::optional_function(fcppt::log::format::default_level(l)));
         }));
+    private_owner = plan.cfg.has("pc") ? static_cast<int>(plan.cfg.getu("pc") % nf) : -1;
+    private_model = Model(root);
+    if (private_owner >= 0)
+    {
+      // (it writes to the same sinks; nothing is logged through it)
+      private_context = std::make_unique<fcppt::log::context>(
+          to_level(root),
+          fcppt::enum_::array_init<fcppt::log::level_stream_array>([this](fcppt::log::level const l) {
+            return fcppt::log::level_stream(*sink[static_cast<unsigned>(l)], fcppt::log::format::optional_function(fcppt::log::format::default_level(l)));
+          }));
+      ctx.probe("runs_with_a_private_second_context");
+    }
     for (sim::Op const &op : plan.ops)
     {
       std::uint64_t const t = op.getu("t", 0);
@@ -491,6 +531,7 @@ struct World
     {
       f.objs.clear();
     }
+    private_context.reset();
     context.reset();
   }
 };
@@ -530,6 +571,8 @@ void generate(sim::Rng &rng, sim::Plan &p, bool)
   unsigned const nf = static_cast<unsigned>(rng.chance(1, 4) ? rng.range(5, MAX_FIBERS) : rng.range(2, 4));
   p.cfg.set("fibers", nf);
   p.cfg.set("root", static_cast<long>(rng.below(7)));
+  if (rng.chance(1, 4))
+    p.cfg.set("nv", static_cast<long>(rng.range(1, 5)));
   p.cfg.set("policy", static_cast<long>(rng.below(3)));
   p.cfg.set("ss", static_cast<long>(rng.below(1000000000)));
   p.cfg.set("depth", static_cast<long>(rng.range(1, 4)));
@@ -586,6 +629,9 @@ void generate(sim::Rng &rng, sim::Plan &p, bool)
   bool const faulty = rng.chance(1, 5);
   if (faulty)
     p.cfg.set("faulty", 1);
+  int const private_owner = rng.chance(1, 4) ? static_cast<int>(rng.below(nf)) : -1;
+  if (private_owner >= 0)
+    p.cfg.set("pc", static_cast<long>(private_owner));
   unsigned const prelude = static_cast<unsigned>(rng.below(4));
   for (unsigned k = 0; k < prelude; ++k)
     p.ops.push_back(make_op(PRELUDE));
@@ -595,6 +641,8 @@ void generate(sim::Rng &rng, sim::Plan &p, bool)
     for (unsigned k = 0; k < len; ++k)
     {
       sim::Op op = make_op(t);
+      if (static_cast<int>(t) == private_owner && (op.name == "set" || op.name == "get") && rng.chance(2, 3))
+        op.set("c", 1);
       if (faulty && rng.chance(1, 4) && op.name != "level" && op.name != "enabled" && op.name != "log")
         op.sets("fault", "alloc:" + std::to_string(rng.range(1, 8)));
       p.ops.push_back(op);
